@@ -1,5 +1,5 @@
 #!/bin/sh
-# usage: try_mutant.sh <patch.diff> <PROP> [tier]
+# usage: try_mutant.sh <patch.diff | -> <PROP> [tier]      ("-": no change, only TRY_BASE_PATCH if set)
 # Runs a check against a seeded change WITHOUT touching /repo: a scratch copy of /repo's working tree gets the patch and
 # is bind-mounted over /repo inside a private mount namespace; build output, evidence and replay files of the trial go
 # to a scratch directory (VERIF_TARGET_DIR / VERIF_OUT_DIR), so /verif's own evidence and build stay as they are.
@@ -8,7 +8,10 @@ S="${TRY_SCRATCH:-/tmp/try-mutant}"
 mkdir -p "$S/target" "$S/out"
 rm -rf "$S/repo" "$S/out/replays" "$S/out/evidence"
 rsync -a --exclude target --exclude .git /repo/ "$S/repo/" || exit 2
-( cd "$S/repo" && git init -q . 2>/dev/null; git -C "$S/repo" apply "$patch" ) || { echo "patch does not apply"; exit 2; }
+( cd "$S/repo" && git init -q . 2>/dev/null
+  # TRY_BASE_PATCH: a patch that is part of the base (e.g. a repair not yet committed in /repo)
+  if [ -n "$TRY_BASE_PATCH" ]; then git -C "$S/repo" apply "$TRY_BASE_PATCH" || exit 1; fi
+  [ "$patch" = "-" ] || git -C "$S/repo" apply "$patch" ) || { echo "patch does not apply"; exit 2; }
 rm -rf "$S/repo/.git"
 unshare -m sh -c "mount --bind '$S/repo' /repo && cd /verif && VERIF_TARGET_DIR='$S/target' VERIF_OUT_DIR='$S/out' ./check '$prop' --tier '$tier'" > "$S/out.log" 2>&1; rc=$?
 grep -E "VIOLATION|rule=|KNOWN|HARNESS-ERROR|error(\[|:)" "$S/out.log" | head -${TRY_LINES:-8}
